@@ -154,6 +154,7 @@ def _hook_steps(fn, where: str, allow_generator_return: bool) -> list:
     """statements of a function that resolves provisional nodes of the task and re-creates the DAG"""
     steps = []
     sub = Subst()
+    pending: dict = {}
     for st in _body(fn):
         if isinstance(st, ast.If) and _callee(st.test) == "is_task_generator" and [_u(a) for a in st.test.args] == ["task"] \
                 and len(st.body) == 1 and isinstance(st.body[0], ast.Return) and st.body[0].value is None and not st.orelse:
@@ -177,12 +178,32 @@ def _hook_steps(fn, where: str, allow_generator_return: bool) -> list:
                 raise _err(f"{where}: recreate_dag under unrecognised condition {_u(st.test)!r}")
             steps.append(("recreate", c))
             continue
-        if sub.bind(st) and _no_effect(st):
-            continue
         if _no_effect(st):
+            sub.bind(st)
+            continue
+        if _lazy_bind(sub, st, pending):
             continue
         raise _err(f"{where}: unrecognised statement {_u(st)[:120]!r}")
+    _check_consumed(fn, pending, where)
     return steps
+
+
+def _lazy_bind(sub, st, pending: dict) -> bool:
+    """`x = tree_map_with_path(…collect_provisional_nodes…)`: the call is substituted where `x` is used; `x` must then be used
+    exactly once, in a recognised statement (checked by `_check_consumed`)."""
+    if isinstance(st, ast.Assign) and len(st.targets) == 1 and isinstance(st.targets[0], ast.Name) and \
+            _callee(st.value) == "tree_map_with_path":
+        sub.bind(st)
+        pending[st.targets[0].id] = st
+        return True
+    return False
+
+
+def _check_consumed(fn, pending: dict, where: str):
+    for name, st in pending.items():
+        uses = [n for n in ast.walk(fn) if isinstance(n, ast.Name) and n.id == name and isinstance(n.ctx, ast.Load)]
+        if len(uses) != 1:
+            raise _err(f"{where}: helper variable {name!r} holding resolved nodes is used {len(uses)} times")
 
 
 def _node_steps() -> list:
